@@ -46,11 +46,18 @@ type EvoScenario struct {
 	RandIn, RandOut, RandHidden int
 	RandRecur                   bool
 	RandLinkProb                float64
+	// RestoreAt > 0: before the epoch with this index the population is written with Population.Write and replaced by the
+	// one ReadPopulation restores from that text (evolve -> store -> restore -> evolve on)
+	RestoreAt int
+	restoring bool
 }
 
 func (sc *EvoScenario) brief() map[string]interface{} {
 	m := map[string]interface{}{"ctor": ctorNames[sc.Ctor], "start": sc.StartSrc, "parallel": sc.Parallel, "epochs": sc.Epochs,
 		"fitness": fitNames[sc.Fitness], "opts": optsBrief(sc.Opts)}
+	if sc.RestoreAt > 0 {
+		m["restore_at"] = sc.RestoreAt
+	}
 	if sc.Ctor == ctorRandom {
 		m["random"] = fmt.Sprintf("in=%d out=%d hidden<%d recur=%v p=%.2f", sc.RandIn, sc.RandOut, sc.RandHidden, sc.RandRecur, sc.RandLinkProb)
 	}
@@ -84,6 +91,9 @@ func genScenario(r *rand.Rand, allowParallel bool) *EvoScenario {
 	sc.Parallel = allowParallel && r.Intn(3) == 0
 	sc.Epochs = 25 + r.Intn(36)
 	sc.Fitness = r.Intn(fitShapes)
+	if r.Intn(4) == 0 {
+		sc.RestoreAt = 2 + r.Intn(sc.Epochs-2)
+	}
 	return sc
 }
 
@@ -143,8 +153,17 @@ func assignFitness(r *rand.Rand, shape, gen int, pop *genetics.Population) {
 }
 
 // runScenario drives the scenario under the monitor
+// preConstructor is implemented by the monitors which observe the construction of the population itself (hooks installed
+// before NewPopulation / NewPopulationRandom / ReadPopulation run)
+type preConstructor interface {
+	PreConstruct(c *Ctx, sc *EvoScenario)
+}
+
 func runScenario(c *Ctx, sc *EvoScenario, mon EvoMonitor) {
 	defer func() { genetics.VerifHooks = genetics.VerifHookSet{} }()
+	if pc, ok := mon.(preConstructor); ok {
+		pc.PreConstruct(c, sc)
+	}
 	pop, err := sc.construct()
 	if err != nil {
 		// construction failure of in-domain input is a matter of C01/C02 monitors; report through AfterEpoch with gen -1
@@ -167,10 +186,37 @@ func runScenario(c *Ctx, sc *EvoScenario, mon EvoMonitor) {
 	}
 	ctx := neat.NewContext(context.Background(), sc.Opts)
 	for gen := 0; gen < sc.Epochs; gen++ {
+		if sc.RestoreAt > 0 && gen == sc.RestoreAt {
+			// store and restore: the monitors meet the restored population as a newly constructed one (their history-long
+			// registries live on)
+			var buf bytes.Buffer
+			if err = pop.Write(&buf); err == nil {
+				sc.restoring = true
+				if pc, ok := mon.(preConstructor); ok {
+					pc.PreConstruct(c, sc)
+				}
+				pop, err = genetics.ReadPopulation(&buf, sc.Opts)
+			}
+			if err != nil {
+				mon.AfterEpoch(c, sc, -1, nil, fmt.Errorf("store / restore before epoch %d: %w", gen, err))
+				return
+			}
+			c.Count("populations.restored_mid_run", 1)
+			mon.Constructed(c, sc, pop)
+		}
 		assignFitness(c.G, sc.Fitness, gen, pop)
+		var preSnaps []*SnapGenome
+		if sc.Ctor == ctorRandom {
+			for _, org := range pop.Organisms {
+				preSnaps = append(preSnaps, snapGenome(org.Genotype))
+			}
+		}
 		mon.BeforeEpoch(c, sc, gen, pop)
 		err = ex.NextEpoch(ctx, gen, pop)
 		c.Eval(1)
+		if err == nil && sc.Ctor == ctorRandom && geneLessChildSurvived(c, sc, gen, pop, preSnaps) {
+			return
+		}
 		if !mon.AfterEpoch(c, sc, gen, pop, err) {
 			return
 		}
@@ -236,4 +282,33 @@ func diagnoseGeneLessChild(snaps []*SnapGenome) map[string]interface{} {
 		}
 	}
 	return nil
+}
+
+// geneLessChildSurvived handles the silent manifestation of the recorded finding: a gene-less child of mateSinglePoint which
+// was not mutated afterwards becomes an organism of the new generation without any error (the next epoch would fail or
+// panic in rand.Intn(0) when it is chosen as a parent). The scenario ends here: a gene-less genome is outside of every
+// quantifier. Only when a pair of genomes of the previous generation reproduces the finding; anything else is left to the
+// monitors.
+func geneLessChildSurvived(c *Ctx, sc *EvoScenario, gen int, pop *genetics.Population, preSnaps []*SnapGenome) bool {
+	var geneLess *genetics.Organism
+	for _, org := range pop.Organisms {
+		if len(org.Genotype.Genes) == 0 {
+			geneLess = org
+			break
+		}
+	}
+	if geneLess == nil {
+		return false
+	}
+	w := diagnoseGeneLessChild(preSnaps)
+	if w == nil {
+		return false
+	}
+	c.Count("scenarios.stopped_at_gene_less_child_of_random_population", 1)
+	switch c.Prop.ID {
+	case "C01", "C16":
+		c.Violate("wf/genesis", map[string]interface{}{"key": keyGeneLessChild, "witness": w, "scenario": sc.brief(), "generation": gen},
+			"organism of generation %d has no genes and can not be expressed as a network (child of mateSinglePoint of unrelated random genomes)", gen+1)
+	}
+	return true
 }
